@@ -79,6 +79,21 @@ def hang_signature(sim, ticket):
                                                         None)
     names = [f.split(':')[-1] for f in frames]
     eng = [f for f in frames if f.startswith('engineio/')]
+    if sim.kind == 'A':
+        if 'wait_for' in names and 'poll' in names:
+            return 'not-hung'       # a long-poll waiting with its time-out
+        if 'disconnect' in names and ('wait' in names or '_wait' in names):
+            # disconnect() of all clients waits for one close() task each
+            import asyncio
+            for task in asyncio.all_tasks(sim.loop):
+                if task.done():
+                    continue
+                chain, c = [], task.get_coro()
+                while c is not None and hasattr(c, 'cr_code'):
+                    chain.append(c.cr_code.co_name)
+                    c = c.cr_await
+                if chain[:1] == ['close'] and 'join' in chain:
+                    return 'close-wait-no-pending-reader'
     if 'close' in names and 'join' in names and \
             names.index('join') > names.index('close'):
         return 'close-wait-no-pending-reader'
